@@ -284,14 +284,28 @@ def _run(exe, tmp):
 
 
 def run_model(ctx, mod, rlines, tag):
+    """replay a transcript through the extracted model/spec; long transcripts are cut at history boundaries
+    ('open' resets both M and S) so that the list-recursive extracted code stays within the stack"""
     tmp = os.path.join(ctx.bdir, "harness", "c12-%s-%d.tr" % (tag, os.getpid()))
-    with open(tmp, "w") as fh:
-        fh.write("\n".join(rlines) + "\n")
-    rc, out = vc.sh([mod, "dd", tmp], timeout=900)
-    os.unlink(tmp)
-    if rc != 0:
-        raise vc.BuildError("model driver failed: " + out[-500:])
-    return out.splitlines()
+    res, chunk = [], []
+
+    def flush():
+        if not chunk:
+            return
+        with open(tmp, "w") as fh:
+            fh.write("\n".join(chunk) + "\n")
+        rc, out = vc.sh([mod, "dd", tmp], timeout=900)
+        os.unlink(tmp)
+        if rc != 0:
+            raise vc.BuildError("model driver failed: " + out[-500:])
+        res.extend(out.splitlines())
+        del chunk[:]
+    for l in rlines:
+        if l.startswith("open ") and len(chunk) > 20000:
+            flush()
+        chunk.append(l)
+    flush()
+    return res
 
 
 def split(line):
